@@ -20,8 +20,9 @@ F4 == Branch(<<>>, "count", None, "c1")
 F5 == Branch(<<SetN("n", "b", 8), Inc("hits")>>, "store", None, "")
 R1 == Branch(<<Inc("hits"), App(3)>>, "fr", None, "")
 R2 == Branch(<<SetK("k", 6), SetN("n", "b", 4)>>, "fr", None, "")
+R3 == Branch(<<Inc("hits"), LApp(4)>>, "fr", 1, "")          \* a fill/request branch that raises LenaStopFill
 SRC == Branch(<<>>, "src", None, "")
-AllTemplates == {S1, S2, S3, S4, F1, F2, F3, F4, F5, R1, R2, SRC}
+AllTemplates == {S1, S2, S3, S4, F1, F2, F3, F4, F5, R1, R2, R3, SRC}
 FewTemplates == {S1, S3, S4, F1, F3, R1, SRC}
 FillFew == {F1, F3, F5, R1, R2}
 
@@ -61,6 +62,7 @@ Alone(b, xs, bs) ==
     [] b.end = "count" -> LET n == Len(xs)
                               c == IF n = 0 THEN <<>> ELSE PApplyAll(xs[n], b.muts).c
                           IN <<[d |-> <<n>>, c |-> Put(c, b.name, n)]>>
-    [] b.end = "fr" -> [j \in 1..Len(xs) |-> PApplyAll(xs[j], b.muts)]
+    [] b.end = "fr" -> LET k == IF b.stop = None THEN Len(xs) ELSE Min(b.stop, Len(xs))
+                       IN [j \in 1..k |-> PApplyAll(xs[j], b.muts)]
     [] b.end = "src" -> <<[d |-> <<-1>>, c |-> <<>>], [d |-> <<-2>>, c |-> <<>>]>>
 =============================================================================
